@@ -7,6 +7,7 @@ CONSTANTS
   BlockSizes = {1}
   Mults = {1}
   Mode = "wand"
+  StoredBlock = 0
   NoPruneWithHook = TRUE
 INVARIANT PrunedEqualsExhaustive
 PROPERTY Progress
